@@ -39,7 +39,11 @@ impl StateMachine<'_> {
         self.painter.paint_buffered_minus_and_plus_lines();
         // These lines are not preceded by a `diff` line: a file header which the previous
         // section still owes (e.g. of a mode-only change) is written now, with its mode info.
-        self.handle_pending_line_with_diff_name()?;
+        // (Only a section still in its header owes one; in other states, e.g. at the very first
+        // line of the input, there is nothing to look for.)
+        if matches!(self.state, State::DiffHeader(_)) {
+            self.handle_pending_line_with_diff_name()?;
+        }
         self.state = to_state;
         if self.should_handle() {
             self.painter.emit()?;
